@@ -471,6 +471,34 @@ fn eval_origin_url(text: &str) -> Vec<(String, String)> {
     v
 }
 
+/// A store that executes the write and then answers with an error status (the acknowledgement was
+/// lost on the way), for every status byte: if the registration nevertheless reports success, it
+/// has made exactly one write.
+fn eval_lost_ack(status: u8, memory: bool) -> Vec<(String, String)> {
+    use passkey_client::DefaultClientData;
+    let mut v = vec![];
+    let inner = Shared::new(RefStore::new());
+    let sw = SwitchStore { status, ..SwitchStore::new(inner.clone()) };
+    sw.switch.store(2, std::sync::atomic::Ordering::SeqCst);
+    let saves = sw.persisted_saves.clone();
+    let url = url::Url::parse("https://example.com").unwrap();
+    let opts = creation_options(Reg::default());
+    let r = if memory {
+        let mut client = passkey_client::Client::new(passkey_authenticator::Authenticator::new(passkey_types::ctap2::Aaguid::new_empty(), Arc::new(tokio::sync::Mutex::new(sw)), ScriptedUv::consenting(Log::new())));
+        par::catch(|| crate::core::exec::block_on(client.register(&url, opts, DefaultClientData)).is_ok())
+    } else {
+        let mut client = passkey_client::Client::new(passkey_authenticator::Authenticator::new(passkey_types::ctap2::Aaguid::new_empty(), sw, ScriptedUv::consenting(Log::new())));
+        par::catch(|| crate::core::exec::block_on(client.register(&url, opts, DefaultClientData)).is_ok())
+    };
+    let n = saves.load(std::sync::atomic::Ordering::SeqCst);
+    match r {
+        Err(p) => v.push(("panic".into(), p)),
+        Ok(true) if n != 1 => v.push(("successful-registration-wrote-more-than-once".into(), format!("the store executed the write and answered {status:#04x}; the registration reports success after {n} executed writes (an append-only store now holds {n} credentials for one registration)"))),
+        _ => {}
+    }
+    v
+}
+
 pub fn run(ctx: &Ctx) -> Result<Run, String> {
     let cs = cases(ctx.tier);
     let mut stats = par::sweep_cases(&cs, ctx.threads, |c, st| {
@@ -480,6 +508,14 @@ pub fn run(ctx: &Ctx) -> Result<Run, String> {
     });
     for c in cs.iter().step_by(cs.len() / 3 + 1) {
         stats.samples.push(serde_json::to_value(c).unwrap());
+    }
+    for status in 0..=255u8 {
+        for memory in [false, true] {
+            stats.case(&("lost-ack", status, memory), true, "lost-acknowledgement");
+            for (k, d) in eval_lost_ack(status, memory) {
+                stats.finding(Finding::new(format!("lost-ack/kind={k}"), d, json!({"lost_ack": {"status": status, "memory": memory}})));
+            }
+        }
     }
     for (i, u) in ORIGIN_URLS.iter().enumerate() {
         stats.case(&("origin-url", i), true, "origin-url");
@@ -502,7 +538,7 @@ pub fn run(ctx: &Ctx) -> Result<Run, String> {
     let single = cs.len() as u64;
     let mut run = Run::from_stats(
         "model_checking",
-        "a run of 96 (thorough 400) registrations on one thread over seven authenticators with credential-id lengths 16/20/33/60/64/32/48 and PRF secrets: no 8-byte window of a credential id or secret may occur in one drawn earlier; 14 origins given as full URLs (paths, queries, fragments, user info; backslashes, quotes, non-ASCII and escapes that survive URL serialisation): clientDataJSON of the registration and of a following assertion parses as JSON and names the caller's origin; single registrations: full product of 10 challenges (lengths 0..64, base64url-discriminating bytes) x 6 accepted origin/RP pairs (host=RP, sub-domain, port, IDN, localhost, Android) x 9 algorithm lists (incl. entries of unknown credential type that carry an unsupported algorithm) x 3 client-data modes x counter on/off x {RefStore, Arc<Mutex<MemoryStore>>}, users x orgs x modes x rk, and all 256 requested credential-id lengths; sequences: BFS over register(rp in 2, user in 2, rk) – so the same account registers repeatedly – from the empty and two seeded stores, on the contract store and on Arc<Mutex<MemoryStore>>. Every response is verified by an independent relying-party implementation and the store delta is compared. Non-trivial = distinct case that produced a credential or the unsupported-algorithm refusal",
+        "a run of 96 (thorough 400) registrations on one thread over seven authenticators with credential-id lengths 16/20/33/60/64/32/48 and PRF secrets: no 8-byte window of a credential id or secret may occur in one drawn earlier; a store that executes the write and answers with each of the 256 status bytes (a lost acknowledgement): a registration that reports success has made exactly one write; 14 origins given as full URLs (paths, queries, fragments, user info; backslashes, quotes, non-ASCII and escapes that survive URL serialisation): clientDataJSON of the registration and of a following assertion parses as JSON and names the caller's origin; single registrations: full product of 10 challenges (lengths 0..64, base64url-discriminating bytes) x 6 accepted origin/RP pairs (host=RP, sub-domain, port, IDN, localhost, Android) x 9 algorithm lists (incl. entries of unknown credential type that carry an unsupported algorithm) x 3 client-data modes x counter on/off x {RefStore, Arc<Mutex<MemoryStore>>}, users x orgs x modes x rk, and all 256 requested credential-id lengths; sequences: BFS over register(rp in 2, user in 2, rk) – so the same account registers repeatedly – from the empty and two seeded stores, on the contract store and on Arc<Mutex<MemoryStore>>. Every response is verified by an independent relying-party implementation and the store delta is compared. Non-trivial = distinct case that produced a credential or the unsupported-algorithm refusal",
         true,
         stats,
     );
@@ -516,6 +552,9 @@ pub fn run(ctx: &Ctx) -> Result<Run, String> {
 pub fn replay(_ctx: &Ctx, case: &Value) -> Result<Vec<Finding>, String> {
     if let Some(fs) = super::inst::long_run_replay(case, "long-run") {
         return Ok(fs);
+    }
+    if let Some(l) = case.get("lost_ack") {
+        return Ok(eval_lost_ack(l["status"].as_u64().unwrap_or(0) as u8, l["memory"].as_bool().unwrap_or(false)).into_iter().map(|(k, d)| Finding::new(format!("lost-ack/kind={k}"), d, case.clone())).collect());
     }
     if let Some(i) = case.get("origin_url").and_then(|i| i.as_u64()) {
         return Ok(eval_origin_url(ORIGIN_URLS[i as usize % ORIGIN_URLS.len()]).into_iter().map(|(k, d)| Finding::new(format!("origin-url/kind={k}"), d, case.clone())).collect());
